@@ -11,6 +11,7 @@ import os
 import pickle
 import re
 import shutil
+import signal
 import sys
 import tempfile
 import threading
@@ -32,8 +33,18 @@ AUDIT_OPS = {
     'os.setxattr': 'chmod', 'os.removexattr': 'chmod', 'os.getxattr': 'stat', 'os.listxattr': 'stat',
     'os.lchown': 'chown', 'os.lchmod': 'chmod',
 }
-TWO_PATHS = {'os.rename', 'os.link', 'os.symlink', 'shutil.copyfile', 'shutil.copytree', 'shutil.move'}
-READ_OPS = {'stat', 'openr', 'listdir'}
+AUDIT_OPS.update({'os.fwalk': 'listdir', 'pathlib.Path.glob': 'listdir', 'pathlib.Path.rglob': 'listdir',
+                  'glob.glob/2': 'listdir', 'os.mkdirat': 'mkdir', 'tempfile.mkdtemp': 'mkdir',
+                  'shutil.copy': 'copy', 'shutil.copy2': 'copy', 'shutil.copymode': 'chmod',
+                  'shutil.copystat': 'chmod', 'shutil.make_archive': 'copy', 'shutil.unpack_archive': 'copy',
+                  'shutil.chown': 'chown', 'os.chflags': 'chmod', 'os.lchflags': 'chmod', 'os.chroot': 'chdir',
+                  'os.startfile': 'openr', 'sqlite3.connect': 'openw'})
+TWO_PATHS = {'os.rename', 'os.link', 'os.symlink', 'shutil.copyfile', 'shutil.copytree', 'shutil.move',
+             'shutil.copy', 'shutil.copy2', 'shutil.copymode', 'shutil.copystat'}
+CWD_WHEN_NONE = {'os.listdir', 'os.scandir', 'os.walk', 'os.fwalk'}
+NO_PATH_ARG0 = {'glob.glob', 'glob.glob/2'}      # a pattern, not a path: the scandir calls behind it are recorded
+READ_OPS = {'stat', 'lstat', 'openr', 'listdir'}
+NOFOLLOW_OPS = {'lstat', 'unlink', 'rename', 'rmdir', 'symlink', 'link'}
 
 
 def _p(x):
@@ -47,6 +58,10 @@ def _p(x):
     if isinstance(x, bytes):
         x = os.fsdecode(x)
     return x
+
+
+class CodeHang(BaseException):
+    """Raised by the per-case alarm inside whatever the code under test is doing."""
 
 
 class _TState:
@@ -96,9 +111,13 @@ class Tap:
         op = AUDIT_OPS.get(event)
         if op is None:
             return
+        if event in NO_PATH_ARG0:
+            return
         n = 2 if event in TWO_PATHS else 1
         for a in args[:n]:
             path = _p(a)
+            if path is None and a is None and event in CWD_WHEN_NONE:
+                path = '.'
             if path is not None:
                 st.log.append([op, path, st.internal > 0, None])
 
@@ -113,7 +132,7 @@ class Tap:
             sp = _p(path)
             if sp is None:
                 return real(path, *a, **k)
-            entry = ['stat', sp, st.internal > 0, 'm']
+            entry = ['lstat' if name in ('lstat', 'readlink') else 'stat', sp, st.internal > 0, 'm']
             st.log.append(entry)
             r = real(path, *a, **k)
             if name in ('stat', 'lstat'):
@@ -157,6 +176,92 @@ class Tap:
 
 TAP = Tap()
 HERE = os.path.dirname(os.path.abspath(__file__))
+
+
+def tap_selftest():
+    """Every way the standard library offers to look at / change a file must show up in the tap (run once per
+    check, outside any request): os, os.path, io, pathlib, glob, shutil, codecs, mimetypes.  Returns
+    (number of APIs probed, the ones the tap is blind to)."""
+    import codecs
+    import glob
+    import mimetypes
+    import pathlib
+    d = os.path.realpath(tempfile.mkdtemp(prefix='c11-tap-'))
+    f = os.path.join(d, 'probe.txt')
+    g = os.path.join(d, 'other.txt')
+    P = pathlib.Path
+
+    def fresh():
+        for n in os.listdir(d):
+            q = os.path.join(d, n)
+            if os.path.isdir(q) and not os.path.islink(q):
+                shutil.rmtree(q)
+            else:
+                os.unlink(q)
+        with open(f, 'wb') as h:
+            h.write(b'x')
+
+    def closing(h):
+        if isinstance(h, int):
+            os.close(h)
+        else:
+            h.close()
+    probes = [
+        ('os.stat', lambda: os.stat(f)), ('os.lstat', lambda: os.lstat(f)),
+        ('os.path.exists', lambda: os.path.exists(f)), ('os.path.lexists', lambda: os.path.lexists(f)),
+        ('os.path.isfile', lambda: os.path.isfile(f)), ('os.path.isdir', lambda: os.path.isdir(f)),
+        ('os.path.islink', lambda: os.path.islink(f)), ('os.path.getsize', lambda: os.path.getsize(f)),
+        ('os.path.getmtime', lambda: os.path.getmtime(f)), ('os.path.getatime', lambda: os.path.getatime(f)),
+        ('os.path.getctime', lambda: os.path.getctime(f)), ('os.path.samefile', lambda: os.path.samefile(f, f)),
+        ('os.path.ismount', lambda: os.path.ismount(f)), ('os.path.realpath', lambda: os.path.realpath(f)),
+        ('os.access', lambda: os.access(f, os.R_OK)), ('os.readlink', lambda: _quiet(lambda: os.readlink(f))),
+        ('open', lambda: closing(open(f, 'rb'))), ('io.open', lambda: closing(io.open(f, 'rb'))),
+        ('io.FileIO', lambda: closing(io.FileIO(f, 'r'))), ('os.open', lambda: closing(os.open(f, os.O_RDONLY))),
+        ('codecs.open', lambda: closing(codecs.open(f, 'r', 'utf-8'))),
+        ('open(w)', lambda: closing(open(g, 'wb'))), ('os.open(w)', lambda: closing(os.open(g, os.O_WRONLY | os.O_CREAT))),
+        ('pathlib.open', lambda: closing(P(f).open('rb'))), ('pathlib.read_bytes', lambda: P(f).read_bytes()),
+        ('pathlib.read_text', lambda: P(f).read_text()), ('pathlib.write_bytes', lambda: P(g).write_bytes(b'y')),
+        ('pathlib.stat', lambda: P(f).stat()), ('pathlib.lstat', lambda: P(f).lstat()),
+        ('pathlib.exists', lambda: P(f).exists()), ('pathlib.is_file', lambda: P(f).is_file()),
+        ('pathlib.is_dir', lambda: P(f).is_dir()), ('pathlib.is_symlink', lambda: P(f).is_symlink()),
+        ('pathlib.resolve', lambda: P(f).resolve()), ('pathlib.iterdir', lambda: list(P(d).iterdir())),
+        ('pathlib.glob', lambda: list(P(d).glob('*'))), ('pathlib.unlink', lambda: P(f).unlink()),
+        ('pathlib.touch', lambda: P(g).touch()), ('pathlib.mkdir', lambda: P(d, 'nd').mkdir()),
+        ('pathlib.rename', lambda: P(f).rename(g)),
+        ('os.listdir', lambda: os.listdir(d)), ('os.scandir', lambda: list(os.scandir(d))),
+        ('os.walk', lambda: list(os.walk(d))), ('glob.glob', lambda: glob.glob(d + '/*')),
+        ('os.remove', lambda: os.remove(f)), ('os.unlink', lambda: os.unlink(f)),
+        ('os.rename', lambda: os.rename(f, g)), ('os.replace', lambda: os.replace(f, g)),
+        ('os.mkdir', lambda: os.mkdir(os.path.join(d, 'nd'))), ('os.makedirs', lambda: os.makedirs(os.path.join(d, 'a/b'))),
+        ('os.rmdir', lambda: _quiet(lambda: os.rmdir(os.path.join(d, 'nope')))),
+        ('os.symlink', lambda: os.symlink(f, g)), ('os.link', lambda: os.link(f, g)),
+        ('os.utime', lambda: os.utime(f)), ('os.chmod', lambda: os.chmod(f, 0o644)),
+        ('os.truncate', lambda: os.truncate(f, 0)),
+        ('shutil.copyfile', lambda: shutil.copyfile(f, g)), ('shutil.copy', lambda: shutil.copy(f, g)),
+        ('shutil.move', lambda: shutil.move(f, g)), ('shutil.rmtree', lambda: shutil.rmtree(os.path.join(d, 'nope'), ignore_errors=True)),
+        ('mimetypes.read_mime_types', lambda: mimetypes.read_mime_types(f)),
+    ]
+    blind = []
+    try:
+        for name, fn in probes:
+            fresh()
+            with TAP:
+                try:
+                    fn()
+                except OSError:
+                    pass
+            if not any(isinstance(e[1], str) and (e[1] == d or e[1].startswith(d + '/')) for e in TAP.log):
+                blind.append(name)
+    finally:
+        shutil.rmtree(d, ignore_errors=True)
+    return len(probes), blind
+
+
+def _quiet(fn):
+    try:
+        return fn()
+    except OSError:
+        return None
 
 
 def origin(exc):
@@ -281,6 +386,45 @@ def tree_spec():
     return t
 
 
+def links_spec():
+    """Extra entries of the sandbox flavour WITH symbolic links: relpath -> None | bytes | ('link', target)
+    ({TOP} in a target = the sandbox top).  Links inside the roots / the stores are the operator's content;
+    `other/lnk*` are directory links OUTSIDE every root whose targets lie three levels deep, so that
+    "other/lnk/../.." is not "." for the kernel."""
+    t = {}
+
+    def f(p, content=None):
+        t[p] = content if content is not None else ('C11:%s:7f3a9c' % p).encode('utf-8')
+    for rn in ROOTS[:2]:
+        t[rn + '/l_out_dir'] = ('link', '../other')
+        t[rn + '/l_out_file'] = ('link', '../canary.txt')
+        t[rn + '/l_abs'] = ('link', '{TOP}/other/secret.txt')
+        t[rn + '/l_in'] = ('link', 'sub')
+        t[rn + '/l_loop'] = ('link', 'l_loop')
+        t[rn + '/l_dangling'] = ('link', 'nowhere')
+        t[rn + '/sub/l_up'] = ('link', '..')
+        t['x/' + rn] = None
+        f('x/' + rn + '/f.txt')
+        f('x/' + rn + '/only-in-x.txt')
+        t['x/y/' + rn] = None
+        f('x/y/' + rn + '/only-in-xy.txt')
+    t['x'] = None
+    t['x/y'] = None
+    t['x/y/z'] = None
+    f('x/y/z/deep.txt')
+    t['other/lnk'] = ('link', '{TOP}/x/y/z')
+    t['other/lnk_rel'] = ('link', '../x/y/z')
+    t['other/lnk_file'] = ('link', '../canary.txt')
+    for sn in STORES:
+        t[sn + '/session-l_out'] = ('link', '../' + sn + '-evil/victim')
+        t[sn + '/session-l_in'] = ('link', 'session-real')
+        t[sn + '/session-l_dir'] = ('link', '../other')
+        t['x/' + sn] = None
+        t['x/' + sn + '/session-v'] = _pickle()
+        t['x/' + sn + '/session-real'] = _pickle()
+    return t
+
+
 SYSTEM_OK = None
 
 
@@ -290,7 +434,13 @@ def system_ok(path):
     if SYSTEM_OK is None:
         pre = {sys.prefix, sys.base_prefix, sys.exec_prefix, common.REPO, '/repo', '/venv', common.VERIF,
                os.path.dirname(os.__file__), '/usr/lib/python3', '/usr/share/zoneinfo', '/etc/localtime',
-               '/etc/mime.types', '/dev/urandom', '/dev/null'}
+               '/etc/mime.types', '/dev/urandom', '/dev/random', '/dev/null', '/usr/share/locale', '/usr/lib/locale',
+               '/usr/share/mime', '/etc/timezone', '/usr/lib/ssl', '/etc/ssl'}
+        try:
+            import mimetypes
+            pre |= set(mimetypes.knownfiles)
+        except Exception:
+            pass
         SYSTEM_OK = tuple(sorted(os.path.realpath(p) for p in pre))
     return any(path == p or path.startswith(p + '/') for p in SYSTEM_OK)
 
@@ -322,7 +472,12 @@ class Sandboxes:
         self.spec = tree_spec()
         for rel in sorted(self.spec):
             self._create(rel)
-        self.content = {v: k for k, v in self.spec.items() if v is not None and v.startswith(b'C11:')}
+        self.links_extra = {r: (('link', v[1].replace('{TOP}', self.top)) if isinstance(v, tuple) else v)
+                            for r, v in links_spec().items()}
+        self.flavour = 'plain'
+        self.base_extra = {}
+        self.content = {v: k for k, v in list(self.spec.items()) + list(self.links_extra.items())
+                        if isinstance(v, bytes) and v.startswith(b'C11:')}
         self.cwd = os.getcwd()
         self._tl = threading.local()
         self.cur = {}
@@ -357,7 +512,7 @@ class Sandboxes:
                 for e in it:
                     r = (rel + '/' + e.name) if rel else e.name
                     if e.is_symlink():
-                        seen[r] = b'<symlink>'
+                        seen[r] = ('link', os.readlink(e.path))
                     elif e.is_dir(follow_symlinks=False):
                         seen[r] = None
                         stack.append(r)
@@ -372,6 +527,7 @@ class Sandboxes:
     def restore(self, extra=None):
         """Bring the tree back to `spec` (+ `extra`); return the relpaths that differed."""
         want = dict(self.spec)
+        want.update(self.base_extra)
         if extra:
             want.update(extra)
         seen = self.scan()
@@ -394,10 +550,21 @@ class Sandboxes:
             if not os.path.lexists(p):
                 if want[r] is None:
                     os.makedirs(p, exist_ok=True)
+                elif isinstance(want[r], tuple):
+                    os.makedirs(os.path.dirname(p), exist_ok=True)
+                    os.symlink(want[r][1], p)
                 else:
+                    os.makedirs(os.path.dirname(p), exist_ok=True)
                     with open(p, 'wb') as f:
                         f.write(want[r])
         return diff
+
+    def set_flavour(self, flavour):
+        """'plain' = the symlink-free tree of the statement, 'links' = the same plus `links_spec()`."""
+        if flavour != self.flavour:
+            self.flavour = flavour
+            self.base_extra = self.links_extra if flavour == 'links' else {}
+            self.restore()
 
     # -- oracle helpers --------------------------------------------------------------------------
     def walk(self, path):
@@ -407,6 +574,8 @@ class Sandboxes:
         import stat as _st
         if '\x00' in path:
             return 'nul', None
+        if len(path.encode('utf-8', 'surrogateescape')) >= 4096:
+            return 'fail', None         # ENAMETOOLONG: the kernel does not even start
         cur = '/' if path.startswith('/') else self.cwd
         comps = path.split('/')
         n = len(comps)
@@ -458,6 +627,119 @@ class Sandboxes:
             cur = nxt
             out.add(cur)
         return out
+
+    def walk_links(self, path, follow_last=True, fuel=40, visited=None):
+        """Physical walk that reports the symbolic links it follows: (how, loc, links) with how/loc as in `walk`
+        (plus 'loop') and links = the locations of the links followed, in order.  `visited` collects every
+        directory the walk stands in and every link it reads."""
+        import stat as _st
+        if '\x00' in path:
+            return 'nul', None, []
+        if len(path.encode('utf-8', 'surrogateescape')) >= 4096:
+            return 'fail', None, []
+        cur = '/' if path.startswith('/') else self.cwd
+        comps = path.split('/')
+        links = []
+        i = 0
+        if visited is not None:
+            visited.add(cur)
+        while i < len(comps):
+            c = comps[i]
+            i += 1
+            if c in ('', '.'):
+                continue
+            if c == '..':
+                cur = os.path.dirname(cur)
+                if visited is not None:
+                    visited.add(cur)
+                continue
+            rest = comps[i:]
+            more = any(x != '' for x in rest)
+            nxt = cur.rstrip('/') + '/' + c
+            try:
+                st = _real['lstat'](nxt)
+            except (OSError, ValueError):
+                return ('fail' if more else 'last'), nxt, links
+            if _st.S_ISLNK(st.st_mode):
+                if visited is not None:
+                    visited.add(nxt)
+                if not rest and not follow_last:
+                    return 'ok', nxt, links
+                fuel -= 1
+                if fuel < 0:
+                    return 'loop', nxt, links
+                links.append(nxt)
+                tgt = os.readlink(nxt)
+                if tgt.startswith('/'):
+                    cur = '/'
+                comps = tgt.split('/') + rest
+                i = 0
+                continue
+            if _st.S_ISDIR(st.st_mode):
+                cur = nxt
+                if visited is not None:
+                    visited.add(cur)
+            else:
+                return ('fail' if (more or rest) else 'ok'), nxt, links
+        return 'ok', cur, links
+
+    @staticmethod
+    def _in(p, d):
+        return p == d or p.startswith(d.rstrip('/') + '/')
+
+    def judge_links(self, root, log, changed, kind, body=None):
+        """The property predicate in a tree with symbolic links, weak reading: the object an access reaches
+        (or would create) is at or below the root - unless the FIRST link the kernel follows on the way sits
+        at, above or inside the root (the operator's own links; like FollowSymLinks).  An outside object reached
+        through a link that sits OUTSIDE the root is what the known finding F32 / F32b is about (lexical test,
+        un-normalised string handed to the kernel): reported under that signature only."""
+        bad = []
+        known_sig = 'F32:static_dotdot_through_outside_symlink' if kind == 'static' else \
+            'F32b:session_dotdot_through_outside_symlink'
+        known_locs, allowed_locs = set(), set()
+        passed = None
+        for op, path, internal, res in log:
+            how, loc, links = self.walk_links(path, follow_last=op not in NOFOLLOW_OPS)
+            if how not in ('ok', 'last'):
+                continue
+            if self._in(loc, root):
+                continue
+            if not self._in(loc, self.top) and system_ok(loc):
+                continue
+            if links and (self._in(links[0], root) or self._in(root, links[0])):
+                allowed_locs.add(loc)
+                continue
+            if internal and op in READ_OPS:
+                if passed is None:
+                    passed = set()
+                    for op2, path2, internal2, _r in log:
+                        if not internal2:
+                            self.walk_links(path2, visited=passed)
+                if loc in passed:
+                    continue
+            shown = '%s(%r) reaches %s, outside the root %s' % (
+                op, path.replace(self.top, '{TOP}'), loc.replace(self.top, '{TOP}'), root.replace(self.top, '{TOP}'))
+            if links:
+                known_locs.add(loc)
+                bad.append((shown + ' through the link %s that sits outside the root' % links[0].replace(self.top, '{TOP}'),
+                            known_sig))
+            else:
+                bad.append((shown, 'outside_%s' % ('read' if op in READ_OPS else 'write')))
+        for r in changed:
+            p = self.top + '/' + r
+            if self._in(p, root) or p in allowed_locs:
+                continue
+            bad.append(('the tree outside the root changed: %s' % r,
+                        known_sig if p in known_locs else 'outside_modified'))
+        if body is not None:
+            rel = self.content.get(body)
+            if rel is not None:
+                p = self.top + '/' + rel
+                if not (self._in(p, root) or p in allowed_locs):
+                    bad.append(('the response body is the content of %s, a file outside the root %s'
+                                % (rel, root.replace(self.top, '{TOP}')),
+                                known_sig if p in known_locs else 'outside_content_served'))
+        return bad
 
     def where(self, path):
         """The file-system object the kernel reaches when given `path`: the existing file/directory it
@@ -532,6 +814,11 @@ class Sandboxes:
             'rel+root/': (name + '/', self.top + '/'),
             'rel-noroot': (name, ''),
             'dblslash': ('/' + full, ''),
+            'relcwd': (os.path.relpath(full, self.cwd), ''),           # relative to the cwd, starts with ../
+            'dotdot': (full + '/nodir/..', ''),                         # lexical .. at the end
+            'slashes': (full + '///', ''),
+            'rel+relroot': (name, os.path.relpath(self.top, self.cwd)),   # relative root: filename stays relative
+            'rel+root-dd': (name, self.top + '/sub0/..'),
         }[spelling]
 
     VARIANTS = {
@@ -546,9 +833,24 @@ class Sandboxes:
         'norootrel': ('', '/static', 'rel-noroot', '', ''),
         'script': ('/app', '/static', 'abs', 'index.html', ''),
         'dblslash': ('', '/static', 'dblslash', 'index.html', ''),
-        # tools.staticfile serving <root>/f.txt below /sf (oracle only: no staticdir, nothing to compare)
+        'debug': ('', '/static', 'abs', 'index.html', '', {'debug': True}),
+        'ctypes': ('', '/static', 'rel+root/', 'index.html', '', {'content_types': {'txt': 'text/x-c11', 'html': 'text/html'}}),
+        'regexsec': ('', '/st.t(c+', 'abs', 'index.html', ''),
+        'relroot': ('', '/static', 'rel+relroot', 'index.html', ''),
+        'rootdd': ('', '/static', 'rel+root-dd', '', ''),
+        'indexsub': ('', '/static', 'abs', 'sub/index.html', ''),
+        'indexdot': ('', '/static', 'slashes', './index.html', ''),
+        'matchhead': ('', '/static', 'abs', 'index.html', r'^/static/(sub|f|\.\.|%2e)'),
+        # tools.staticfile serving <root>/f.txt below /sf
         'file': ('', '/sf', 'abs', '', ''),
         'file-rel': ('', '/sf', 'rel+root', '', r'\.txt$'),
+        'file-norel': ('', '/sf', 'rel-noroot', '', ''),
+        'file-debug': ('', '/sf', 'rel+root/', '', '', {'debug': True, 'content_types': {'txt': 'text/x-c11'}}),
+        'file-dbg-missing': ('', '/sf', 'abs', '', '', {'debug': True, 'fname': 'nope.txt'}),
+        'file-dbg-dir': ('', '/sf', 'abs', '', '', {'debug': True, 'fname': 'sub'}),
+        'file-dbg-match': ('', '/sf', 'abs', '', r'\.nomatch$', {'debug': True}),
+        'file-dbg-norel': ('', '/sf', 'rel-noroot', '', '', {'debug': True}),
+        'file-dbg-relroot': ('', '/sf', 'rel+relroot', '', '', {'debug': True}),
     }
 
     def static_app(self, rn, variant):
@@ -557,7 +859,8 @@ class Sandboxes:
             return self.apps[key]
         cherrypy = self.cherrypy
         sb = self
-        script, section, spelling, index, match = self.VARIANTS[variant]
+        script, section, spelling, index, match = self.VARIANTS[variant][:5]
+        opts = self.VARIANTS[variant][5] if len(self.VARIANTS[variant]) > 5 else {}
         d, root = self.dir_spelling(rn, spelling)
 
         def hook():
@@ -569,11 +872,18 @@ class Sandboxes:
                     'method': req.method, 'section': tm.get('section'), 'dir': tm.get('dir'),
                     'root': tm.get('root', ''), 'index': tm.get('index', ''),
                     'match_ok': (not m) or bool(re.search(m, req.path_info)), 'path_info': req.path_info}
+            tf = req.toolmaps.get('tools', {}).get('staticfile')
+            if tf and tf.get('on'):
+                m = tf.get('match', '')
+                sb.cur['routed_file'] = {
+                    'method': req.method, 'filename': tf.get('filename'), 'root': tf.get('root') or '',
+                    'match_ok': (not m) or bool(re.search(m, req.path_info))}
 
         class Root:
             pass
         if variant.startswith('file'):
-            sconf = {'tools.staticfile.on': True, 'tools.staticfile.filename': d + '/f.txt'}
+            opts = dict(opts)
+            sconf = {'tools.staticfile.on': True, 'tools.staticfile.filename': d + '/' + opts.pop('fname', 'f.txt')}
             if root:
                 sconf['tools.staticfile.root'] = root
             if match:
@@ -586,6 +896,9 @@ class Sandboxes:
                 sconf['tools.staticdir.index'] = index
             if match:
                 sconf['tools.staticdir.match'] = match
+        tool = 'tools.staticfile.' if variant.startswith('file') else 'tools.staticdir.'
+        for k, v in opts.items():
+            sconf[tool + k] = v
         conf = {'/': {'hooks.before_handler.c11': cherrypy._cprequest.Hook(hook, priority=0)}}
         conf.setdefault(section, {}).update(sconf)
         app = cherrypy.Application(Root(), script, conf)
@@ -604,7 +917,8 @@ class Sandboxes:
                 c = sb.cur['direct']
                 cherrypy.request.path_info = c['path_info']
                 handled = static.staticdir(section=c['section'], dir=c['dir'], root=c['root'],
-                                           match=c['match'], index=c['index'])
+                                           match=c['match'], index=c['index'], debug=c.get('debug', False),
+                                           content_types=c.get('content_types'))
                 if not handled:
                     raise cherrypy.NotFound()
                 return cherrypy.serving.response.body
@@ -733,7 +1047,8 @@ class Sandboxes:
         try:
             it = app(env, start_response)
             try:
-                body = b''.join(it)
+                # whatever the application yields is an observation (a str chunk is the code's fault, not ours)
+                body = b''.join(x if isinstance(x, bytes) else str(x).encode('utf-8', 'replace') for x in it)
             finally:
                 if hasattr(it, 'close'):
                     it.close()
@@ -743,15 +1058,43 @@ class Sandboxes:
             return describe(e), b''
         if 'status' not in out:
             return 'raised:no-start_response', body
-        return out['status'][:3], body
+        return str(out['status'])[:3], body
 
     # -- case runners ----------------------------------------------------------------------------
     def sub(self, s):
         return s.replace('{TOP}', self.top)
 
+    CASE_LIMIT = 60.0       # seconds for one (non-scheduled) case; the unchanged tree needs milliseconds
+
     def run(self, case):
+        """One case; never raises.  A hang of the code under test is an observation (SIGALRM, main thread only)."""
+        use_alarm = (case.get('k') != 'conc' and hasattr(signal, 'setitimer')
+                     and threading.current_thread() is threading.main_thread())
+        if use_alarm:
+            def _on_alarm(signum, frame):
+                raise CodeHang()
+            old = signal.signal(signal.SIGALRM, _on_alarm)
+            signal.setitimer(signal.ITIMER_REAL, self.CASE_LIMIT)
+        try:
+            return self._run(case)
+        except CodeHang:
+            TAP.close()
+            return {'code_raised': 'hang: no answer within %d s' % self.CASE_LIMIT, 'oracle': [],
+                    'hist': ['%s:code-hang' % case.get('k')]}
+        finally:
+            if use_alarm:
+                signal.setitimer(signal.ITIMER_REAL, 0)
+                signal.signal(signal.SIGALRM, old)
+            try:
+                if os.getcwd() != self.cwd:
+                    os.chdir(self.cwd)
+            except OSError:
+                pass
+
+    def _run(self, case):
         try:
             k = case['k']
+            self.set_flavour('links' if case.get('fl') == 'links' else 'plain')
             if k == 'static':
                 return self.run_static(case)
             if k == 'sess_unit':
@@ -764,6 +1107,8 @@ class Sandboxes:
                 return self.run_alg(case)
             if k == 'resolve':
                 return self.run_resolve(case)
+            if k == 'lres':
+                return self.run_lres(case)
             if k == 'conc':
                 from . import c11_conc
                 return c11_conc.run_conc(self, case)
@@ -793,9 +1138,25 @@ class Sandboxes:
         except Exception:
             changed = []
         root = self.case_root(case)
-        bad = self.judge(root, log, changed) if root else []
+        try:
+            bad = self._judge('static' if case.get('k') == 'static' else 'session', root, log, changed) if root else []
+        except Exception:
+            bad = []
         return {'code_raised': describe(exc), 'oracle': bad, 'acc': self.canon_acc(log),
                 'hist': ['%s:code-raised' % case.get('k')]}
+
+    def _judge(self, kind, root, log, changed, body=None):
+        """The oracle for the current sandbox flavour.  `body` = a 200 GET body (static only)."""
+        if self.flavour == 'links':
+            return self.judge_links(root, log, changed, kind, body)
+        bad = self.judge(root, log, changed)
+        if body is not None:
+            rel = self.content.get(body)
+            rrel = os.path.relpath(root, self.top)
+            if rel is not None and not rel.startswith(rrel + '/'):
+                bad.append(('the response body is the content of %s, a file outside the root %s' % (rel, rrel),
+                            'outside_content_served'))
+        return bad
 
     @staticmethod
     def canon_acc(log):
@@ -816,7 +1177,8 @@ class Sandboxes:
             m = case.get('match', '')
             pi = self.sub(case['path_info'])
             self.cur['direct'] = {'section': case['section'], 'dir': d, 'root': r, 'match': m,
-                                  'index': case['index'], 'path_info': pi}
+                                  'index': case['index'], 'path_info': pi, 'debug': bool(case.get('debug')),
+                                  'content_types': case.get('content_types')}
             self.cur['routed'] = {'method': case['method'], 'section': case['section'], 'dir': d, 'root': r,
                                   'index': case['index'], 'match_ok': (not m) or bool(re.search(m, pi)),
                                   'path_info': pi}
@@ -825,18 +1187,15 @@ class Sandboxes:
                 status, body = self.call(app, case['method'], '', '/direct')
             log = TAP.log
         changed = self.restore() if any(op not in READ_OPS for op, *_ in log) else []
-        obs = {'status': status, 'routed': self.cur.get('routed'), 'acc': self.canon_acc(log)}
+        obs = {'status': status, 'routed': self.cur.get('routed'), 'acc': self.canon_acc(log),
+               'routed_file': self.cur.get('routed_file')}
         stats = [res for op, path, internal, res in log if op == 'stat']
         obs['k1'] = stats[0] if len(stats) > 0 else 'm'
         obs['k2'] = stats[1] if len(stats) > 1 else 'm'
-        bad = self.judge(root, log, changed)
-        if status == '200' and case['method'] == 'GET':
-            rel = self.content.get(body)
-            if rel is not None and not rel.startswith(rn + '/'):
-                bad.append(('the response body is the content of %s, a file outside the root %s' % (rel, rn),
-                            'outside_content_served'))
-            if rel is None:
-                obs.setdefault('hist', []).append('static:200-unknown-body')
+        served = body if (status == '200' and case['method'] == 'GET') else None
+        bad = self._judge('static', root, log, changed, served)
+        if served is not None and self.content.get(body) is None:
+            obs.setdefault('hist', []).append('static:200-unknown-body')
         obs['oracle'] = bad
         h = obs.setdefault('hist', [])
         h.append('static:status=%s' % status)
@@ -893,7 +1252,7 @@ class Sandboxes:
         stats = [res for op, path, internal, res in log
                  if op == 'stat' and not internal and not any(g in path for g in gens)]
         obs['present'] = bool(stats) and stats[0] != 'm' and self.cur.get('cookie_seen') is not None
-        obs['oracle'] = [(w + ' [Cookie: %s]' % cookie, sig) for w, sig in self.judge(root, log, changed)]
+        obs['oracle'] = [(w + ' [Cookie: %s]' % cookie, sig) for w, sig in self._judge('session', root, log, changed)]
         h = obs.setdefault('hist', [])
         h += ['sess_wsgi:status=%s' % status, 'sess_wsgi:tmpl=%s' % case.get('tmpl'),
               'sess_wsgi:action=%s' % case['action'], 'sess_wsgi:present=%s' % obs['present']]
@@ -907,13 +1266,44 @@ class Sandboxes:
         root = self.store_root(case)
         self.cur = {}
         d, _ = self.dir_spelling(case['store'], case['spelling'])
-        sess = self.session_class(id=None, storage_path=d, timeout=60, clean_freq=0, lock_timeout=2)
-        sess._id = self.sub(case['id'])
         op = case['op']
+        if op == 'bad-timeout':
+            # FileSession.__init__ refuses a lock_timeout that is neither a number nor a timedelta (configuration)
+            with TAP:
+                try:
+                    self.session_class(id=None, storage_path=d, timeout=60, clean_freq=0, lock_timeout='soon')
+                    outcome = 'ok'
+                except ValueError:
+                    outcome = 'ValueError'
+            log = TAP.log
+            changed = self.restore()
+            return {'acc': self.canon_acc(log), 'refused': False, 'outcome': outcome, 'cwd': self.cwd, 'storage': d,
+                    'oracle': self._judge('session', root, log, changed),
+                    'hist': ['sess_unit:op=bad-timeout', 'sess_unit:outcome=%s' % outcome]}
+        sess = self.session_class(id=None, storage_path=d, timeout=60, clean_freq=0,
+                                  lock_timeout=0.15 if op == 'lock-busy' else 2)
+        sess._id = self.sub(case['id'])
+        if case.get('debug'):
+            sess.debug = True
         outcome = 'ok'
+        holder = None
+        if op == 'lock-busy':
+            # somebody else holds the session's lock: acquire_lock retries, sleeps, gives up with LockTimeout
+            holder = self._saved_lock(root + '/session-' + sess._id + '.lock')
+            holder.acquire(timeout=1)
         with TAP:
             try:
-                if op == 'exists':
+                if op == 'lock-busy':
+                    try:
+                        sess.acquire_lock()
+                    finally:
+                        lk = getattr(sess, 'lock', None)
+                        if lk is not None:
+                            try:
+                                lk.release()
+                            except Exception:
+                                pass
+                elif op == 'exists':
                     sess._exists()
                 elif op == 'load':
                     sess.locked = True
@@ -924,6 +1314,11 @@ class Sandboxes:
                 elif op == 'delete':
                     sess.locked = True
                     sess._delete()
+                elif op == 'len':
+                    len(sess)
+                elif op == 'release':
+                    sess.acquire_lock()
+                    sess.release_lock()
                 elif op == 'lock':
                     try:
                         sess.acquire_lock()
@@ -942,6 +1337,11 @@ class Sandboxes:
                 raise
             except Exception as e:
                 outcome = 'exc:' + type(e).__name__
+        if holder is not None:
+            try:
+                holder.release()
+            except Exception:
+                pass
         log = TAP.log
         changed = self.restore()
         obs = {'acc': self.canon_acc(log), 'refused': outcome == '400', 'outcome': outcome,
@@ -954,11 +1354,11 @@ class Sandboxes:
         # code itself chose is judged; what filelock does with an unresolvable name (its `mkdir -p` of the
         # lexical parents) is outside the statement's domain - recorded in docs/C11.md as an observation.
         fname = os.path.join(os.path.abspath(d), 'session-' + sess._id)
-        if op != 'exists' and self.walk(fname)[0] in ('fail', 'nul'):
+        if op not in ('exists', 'len') and self.walk(fname)[0] in ('fail', 'nul'):
             obs['hist'].append('sess_unit:id-unreachable-from-a-cookie')
             log = [e for e in log if not e[2]]
             changed = []
-        obs['oracle'] = self.judge(root, log, changed)
+        obs['oracle'] = self._judge('session', root, log, changed)
         return obs
 
     def run_cleanup(self, case):
@@ -976,6 +1376,8 @@ class Sandboxes:
                 states[name] = {'z': 'u'}.get(st, st)
         self.restore(extra)
         sess = self.session_class(id=None, storage_path=d, timeout=60, clean_freq=0, lock_timeout=2)
+        if case.get('debug'):
+            sess.debug = True
         listing = []
         for name in _real['listdir'](root):
             if name in states:
@@ -999,7 +1401,7 @@ class Sandboxes:
         changed = self.restore()
         # files clean_up removed/created inside the root are expected; only outside changes count
         obs = {'acc': self.canon_acc(log), 'listing': listing, 'cwd': self.cwd, 'storage': d}
-        obs['oracle'] = self.judge(root, log, changed)
+        obs['oracle'] = self._judge('session', root, log, changed)
         obs['hist'] = ['cleanup:files=%d' % len(listing), 'cleanup:outcome=%s' % outcome]
         return obs
 
@@ -1024,6 +1426,48 @@ class Sandboxes:
         if os.path is not posixpath:
             raise common.HarnessError('os.path is not posixpath')
         return {'value': v, 'hist': ['alg:%s' % op], 'args': args}
+
+    def run_lres(self, case):
+        """`lresolve` of the model against the kernel on the sandbox flavour with links."""
+        import errno
+        import stat as _st
+        path = self.sub(case['path'])
+        follow = bool(case['follow'])
+        nodes = []
+        anc = self.top
+        while anc != '/':
+            nodes.append([anc, 'd', None])
+            anc = os.path.dirname(anc)
+        for rel, c in list(self.spec.items()) + list(self.base_extra.items()):
+            if c is None:
+                nodes.append([self.top + '/' + rel, 'd', None])
+            elif isinstance(c, tuple):
+                nodes.append([self.top + '/' + rel, 'l', c[1]])
+            else:
+                nodes.append([self.top + '/' + rel, 'f', None])
+        how, loc, links = self.walk_links(path, follow_last=follow)
+        try:
+            st = (_real['stat'] if follow else _real['lstat'])(path)
+            kind = 'lnk' if _st.S_ISLNK(st.st_mode) else ('dir' if _st.S_ISDIR(st.st_mode) else 'file')
+            if how != 'ok':
+                return {'harness_error': 'walk_links(%r) = %r but the kernel finds a %s' % (path, (how, loc), kind)}
+            if kind != 'lnk' and os.path.realpath(path) != loc:
+                return {'harness_error': 'walk_links(%r) = %r but realpath = %r' % (path, loc, os.path.realpath(path))}
+            result = [kind, loc]
+        except OSError as e:
+            if e.errno == errno.ELOOP:
+                result = ['eloop', '']
+                if how != 'loop':
+                    return {'harness_error': 'walk_links(%r) = %r but the kernel says ELOOP' % (path, (how, loc))}
+            else:
+                result = ['enoent', loc]
+                if how not in ('fail', 'last'):
+                    return {'harness_error': 'walk_links(%r) = %r but the kernel says %s' % (path, (how, loc), e)}
+        if loc is not None and not (self._in(loc, self.top) or self._in(self.top, loc)):
+            return {'skip': True, 'hist': ['lres:left-the-sandbox'], 'nodes': [], 'path': '/', 'follow': follow,
+                    'result': ['dir', '/']}
+        return {'nodes': nodes, 'path': path, 'follow': follow, 'result': result,
+                'hist': ['lres:%s' % result[0], 'lres:links-followed=%d' % min(len(links), 3)]}
 
     def run_resolve(self, case):
         import stat as _st
